@@ -483,13 +483,26 @@ func (e *c11env) admission() {
 				"Client.Init installs the permissions, yet a refusal is still reachable afterwards (returns at %s): a refused client keeps its permissions", strings.Join(bad, ", "))
 		}
 	}
-	// (b) every successful AddClient of a *webClient is recorded or undone
-	hm := p.Func("rtpconn", "", "handleClientMessage")
-	if hm == nil {
-		c.Unknown("R11.2", "anchor handleClientMessage", 0, "not found")
+	joinRecordedRule(c, "R11.2")
+}
+
+// joinRecordedRule: every successful AddClient of a *webClient in
+// handleClientMessage is followed, on every path, by recording the group in
+// c.group (before any leaveGroup/DelClient, which only act on a recorded
+// group) - shared by C11 (R11.2) and C14 (R14.4).
+func joinRecordedRule(c *Ctx, rule string) {
+	p := c.P
+	grp := p.Field("rtpconn", "webClient", "group")
+	if grp == nil {
+		c.Unknown(rule, "anchor webClient.group", 0, "not found")
 		return
 	}
-	hff := e.eng.Analyze(hm)
+	hm := p.Func("rtpconn", "", "handleClientMessage")
+	if hm == nil {
+		c.Unknown(rule, "anchor handleClientMessage", 0, "not found")
+		return
+	}
+	hff := p.Facts().Analyze(hm)
 	wc := p.TypeName("rtpconn", "webClient")
 	n := 0
 	for _, cs := range p.CallSites() {
@@ -504,7 +517,7 @@ func (e *c11env) admission() {
 		res0 := &Term{K: 'r', Name: "res0", Pos: cs.Call.Lparen}
 		res1 := &Term{K: 'r', Name: "res1", Pos: cs.Call.Lparen}
 		okFact := mkFact(true, "eq", TNil(), res1)
-		recorded := mkFact(true, "eq", TField(ct, e.grp), res0)
+		recorded := mkFact(true, "eq", TField(ct, grp), res0)
 		errFact := mkFact(false, "eq", TNil(), res1)
 		_, _ = okFact, recorded
 		var bad []string
@@ -518,7 +531,7 @@ func (e *c11env) admission() {
 				case *ast.AssignStmt:
 					for i, l := range y.Lhs {
 						lt := hff.term(l)
-						if lt != nil && ct != nil && lt.String() == TField(ct, e.grp).String() {
+						if lt != nil && ct != nil && lt.String() == TField(ct, grp).String() {
 							flag = 0
 							if i < len(y.Rhs) && len(y.Lhs) == len(y.Rhs) {
 								if rt := hff.term(y.Rhs[i]); rt != nil && st != nil && st.EqualUnder(rt, res0) {
@@ -546,14 +559,14 @@ func (e *c11env) admission() {
 			bad = append(bad, p.PosStr(pos))
 		}
 		if len(bad) == 0 {
-			c.OK("R11.2", "join: admitted client is recorded or removed", cs.Call.Pos(), "every exit after a successful AddClient has c.group == the joined group, or leaveGroup/DelClient was called")
+			c.OK(rule, "join: admitted client is recorded or removed", cs.Call.Pos(), "every exit after a successful AddClient has c.group == the joined group, or leaveGroup/DelClient was called")
 		} else {
-			c.Bad("R11.2", "join: admitted client is recorded or removed", cs.Call.Pos(),
+			c.Bad(rule, "join: admitted client is recorded or removed", cs.Call.Pos(),
 				"after a successful AddClient the handler can return (at %s) with the client in the group's member list but c.group unset: the member is never removed and holds permissions while 'not a member'", strings.Join(bad, ", "))
 		}
 	}
 	if n == 0 {
-		c.Unknown("R11.2", "join: AddClient call", hm.Pos(), "no AddClient(*webClient) call in handleClientMessage")
+		c.Unknown(rule, "join: AddClient call", hm.Pos(), "no AddClient(*webClient) call in handleClientMessage")
 	}
 }
 
